@@ -319,7 +319,10 @@ def search(ctx):
     cases = []
     n = 1500 if big else 260
     for i in range(n):
-        e = gen_sympy(rng, int(rng.integers(1, 5)), xs, [foo, bar, baz])
+        try:
+            e = gen_sympy(rng, int(rng.integers(1, 5)), xs, [foo, bar, baz])
+        except (TypeError, ValueError, ZeroDivisionError, RecursionError):   # sympy refuses to build it (zoo, nan comparisons)
+            continue
         keys = [["foo", "bar", "baz"], ["baz", "foo", "bar"], ["bar", "baz", "foo"], ["foo"]][int(rng.integers(4))]
         cases.append((e, keys))
     # corpus of past failures first
@@ -374,7 +377,10 @@ def search(ctx):
                        abs(v_real - v_src.real), 1e-8, obligation="theorem:C19.s2c_sound")
     # symbol table consistency + matrices + cse path
     for i in range(60 if big else 12):
-        e1 = gen_sympy(rng, 2, xs, [foo]); e2 = gen_sympy(rng, 2, xs, [foo])
+        try:
+            e1 = gen_sympy(rng, 2, xs, [foo]); e2 = gen_sympy(rng, 2, xs, [foo])
+        except (TypeError, ValueError, ZeroDivisionError, RecursionError):
+            continue
         try:
             tab = {}
             c1, tab = symb.sympy_to_casadi(e1, f_dict={"foo": impl_ca["foo"]}, symbols=tab)
